@@ -37,6 +37,15 @@ func ParseRtspStream(b []byte) ([]RtspItem, int, error) {
 			b = b[4+n:]
 			continue
 		}
+		// anything else is a text message: its start line is printable ASCII beginning with a letter
+		if b[0] < 'A' || b[0] > 'Z' {
+			return out, len(b), fmt.Errorf("rtsp: byte 0x%02x where an interleaved frame ('$') or a message was expected", b[0])
+		}
+		for k := 0; k < len(b) && b[k] != '\r'; k++ {
+			if b[k] < 0x20 || b[k] > 0x7e {
+				return out, len(b), fmt.Errorf("rtsp: byte 0x%02x in a start line (%q)", b[k], b[:k])
+			}
+		}
 		i := bytes.Index(b, []byte("\r\n\r\n"))
 		if i < 0 {
 			if len(b) > 65536 {
